@@ -9,9 +9,12 @@
 (*                   cls label, h content token, ct content-type token]    *)
 (*   rels  : set of [src rels-part, id, ty, tg raw target, rt resolved     *)
 (*                   part name, mode "Internal"|"External", k kind, ref]   *)
-(*   body  : sequence of blocks [blk, rel, runs : Seq([c container,        *)
-(*                   ts : Seq(token)])]                                    *)
+(*   body  : sequence of blocks [blk, rel, sty style id of the paragraph,  *)
+(*                   runs : Seq([c label, w wrapping inline container,     *)
+(*                   its : Seq([k, v]) run content in document order,      *)
+(*                   ts : Seq(token) the tokens of its w:t items])]        *)
 (*   ns, pkgns : how namespaces are spelled in the main part / OPC parts   *)
+(*   styles : [sp spelling of word/styles.xml, defs style ids it defines]  *)
 (* The harness writes the concrete ZIP + XML from exactly this value.      *)
 (*                                                                         *)
 (* The reference machine state is                                          *)
@@ -39,10 +42,15 @@ SetOf(s) == {s[i] : i \in 1..Len(s)}
 SeqFilter(s, T(_)) == SelectSeq(s, T)
 
 \* ---- shape alphabet -------------------------------------------------------
-ExtraOrder == <<"theme", "fontTable", "settings", "webSettings", "numbering", "footnotes", "endnotes",
+ExtraOrder == <<"stylesFx", "theme", "fontTable", "settings", "webSettings", "numbering", "footnotes", "endnotes",
                 "comments", "customXml", "header", "header1", "footer1", "docProps", "custProps",
-                "thumbnail", "unkext", "ovronly">>
-ExtraKinds == SetOf(ExtraOrder)
+                "thumbnail", "unkext", "ovronly", "glossary", "people", "commentsExt">>
+\* part kinds whose relationship type merely RESEMBLES one the library treats specially (dimension "xrel"):
+\* stylesWithEffects (Word 2010 writes it next to the styles relationship; with scheme noStyles it stands
+\* alone), the glossary document (a second .../document.xml with its own relationship part and its own
+\* styles relationship), people, commentsExtended
+XrelKinds  == {"stylesFx", "glossary", "people", "commentsExt"}
+ExtraKinds == SetOf(ExtraOrder) \ XrelKinds
 Schemes    == {"dense", "sparse", "nonrid", "stylesLast", "noStyles", "collide"}
 ExtOrder   == <<"hyperlink", "extimage">>
 MediaOrder == <<"image1.png", "image10.jpeg", "Image2.PNG", "picture.png", "image5", "img-3.png",
@@ -52,13 +60,28 @@ PkgNs      == {"default", "prefixed"}
 TgStyles   == {"relative", "absolute"}
 PkgIds     == {"odFirst", "odLast"}
 ContOrder  == <<"plain", "hyperlink", "smartTag", "ins", "sdt", "fldSimple", "customXml", "hl-ins",
-                "sdt-hl", "st-st", "multiT">>
-BlkOrder   == <<"tbl", "tblhl", "sdtblk">>
+                "sdt-hl", "st-st", "multiT",
+                "t+drawing", "fld+t", "t+br+t", "tab+t", "t+fnref", "t+t">>
+\* MIXED RUNS: one w:r that holds text together with other run content. Dimension "mix": such a run in a
+\* plain paragraph (one value per pattern), in a table cell (tblmix), in a block-level content control
+\* (sdtblkmix). Dimension "mixin" (one pattern at most): every run that sits inside an inline container
+\* (hyperlink, smartTag, ins, sdt, fldSimple, customXml and the nested ones) is a mixed run of that pattern.
+MixConts   == {"t+drawing", "fld+t", "t+br+t", "tab+t", "t+fnref", "t+t"}
+MixBlks    == {"tblmix", "sdtblkmix"}
+PlainConts == SetOf(ContOrder) \ MixConts
+BlkOrder   == <<"tbl", "tblhl", "sdtblk", "tblmix", "sdtblkmix">>
+\* STYLES PART (dimensions "sty" spelling, "sdef" ids defined, "sref" ids referenced by body paragraphs)
+StySpellings == {"w", "ns0", "default", "squote", "reorder"}
+SdefIds    == {"Heading1", "Title", "Quote"}          \* ids the library also knows; toggled in the part
+SrefOrder  == <<"Heading1", "Normal", "Title", "Quote", "ForeignStyle", "Ghost">>   \* Ghost is defined nowhere
+AlwaysDefs == {"Normal", "ForeignStyle"}              \* ForeignStyle is defined only in the foreign part
 
 BaseExtras == {"theme", "settings", "fontTable", "header", "docProps"}
 BaseMedia  == {"image1.png"}
 BaseExt    == {"hyperlink"}
 BaseConts  == {"plain", "hyperlink"}
+BaseSdef   == {"Heading1", "Title"}
+BaseSref   == {"Heading1"}
 
 Dev(d, v) == [dim |-> d, val |-> v]
 AllDevs ==
@@ -69,9 +92,15 @@ AllDevs ==
   \cup {Dev("media", x) : x \in SetOf(MediaOrder)}
   \cup {Dev("ns", x) : x \in NsPrefixes \ {"w"}}
   \cup {Dev("pkgns", "prefixed"), Dev("tgstyle", "absolute"), Dev("pkgids", "odLast")}
-  \cup {Dev("cont", x) : x \in SetOf(ContOrder)}
-  \cup {Dev("blk", x) : x \in SetOf(BlkOrder)}
-ExclusiveDims == {"base", "scheme", "ns", "pkgns", "tgstyle", "pkgids"}
+  \cup {Dev("cont", x) : x \in PlainConts}
+  \cup {Dev("blk", x) : x \in SetOf(BlkOrder) \ MixBlks}
+  \cup {Dev("xrel", k) : k \in XrelKinds}
+  \cup {Dev("mix", x) : x \in MixConts \cup MixBlks}
+  \cup {Dev("mixin", x) : x \in MixConts}
+  \cup {Dev("sty", x) : x \in StySpellings \ {"w"}}
+  \cup {Dev("sdef", x) : x \in SdefIds}
+  \cup {Dev("sref", x) : x \in SetOf(SrefOrder)}
+ExclusiveDims == {"base", "scheme", "ns", "pkgns", "tgstyle", "pkgids", "sty", "mixin"}
 \* a deviation set is a shape iff exclusive dimensions carry at most one value
 ShapeOK(D) == \A x, y \in D : (x.dim = y.dim /\ x.dim \in ExclusiveDims) => x = y
 
@@ -79,11 +108,17 @@ Vals(D, dim) == {x.val : x \in {y \in D : y.dim = dim}}
 One(D, dim, dflt) == IF Vals(D, dim) = {} THEN dflt ELSE CHOOSE v \in Vals(D, dim) : TRUE
 Toggle(base, T) == (base \ T) \cup (T \ base)
 IsMin(D) == One(D, "base", "rich") = "min"
-ExtrasOf(D) == Toggle(IF IsMin(D) THEN {} ELSE BaseExtras, Vals(D, "extra"))
 MediaOf(D)  == Toggle(IF IsMin(D) THEN {} ELSE BaseMedia, Vals(D, "media"))
 ExtOf(D)    == Toggle(IF IsMin(D) THEN {} ELSE BaseExt, Vals(D, "ext"))
-ContsOf(D)  == Toggle(IF IsMin(D) THEN {"plain"} ELSE BaseConts, Vals(D, "cont"))
+ContsOf(D)  == Toggle(IF IsMin(D) THEN {"plain"} ELSE BaseConts, Vals(D, "cont")) \cup (Vals(D, "mix") \cap MixConts)
+BlksOf(D)   == Vals(D, "blk") \cup (Vals(D, "mix") \cap MixBlks)
+MixinOf(D)  == One(D, "mixin", "t")
+\* a run with a footnote reference is well-formed only in a package that has the footnotes part
+ExtrasOf(D) == Toggle(IF IsMin(D) THEN {} ELSE BaseExtras, Vals(D, "extra")) \cup Vals(D, "xrel")
+               \cup (IF "t+fnref" \in ContsOf(D) \/ MixinOf(D) = "t+fnref" THEN {"footnotes"} ELSE {})
 SchemeOf(D) == One(D, "scheme", "dense")
+DefsOf(D)   == AlwaysDefs \cup Toggle(IF IsMin(D) THEN {} ELSE BaseSdef, Vals(D, "sdef"))
+SrefsOf(D)  == Toggle(IF IsMin(D) THEN {} ELSE BaseSref, Vals(D, "sref"))
 
 \* ---- media name classes (labels used in witnesses) ------------------------
 MediaCls(nm) ==
@@ -131,6 +166,12 @@ KParts(k) ==
     [] k = "thumbnail"   -> {MkPart("docProps/thumbnail.jpeg", "thumbnail", "default", "")}
     [] k = "unkext"      -> {MkPart("word/embeddings/oleObject1.bin", "unknown-ext", "default", "")}
     [] k = "ovronly"     -> {MkPart("word/custom/item.data", "override-only", "override", "")}
+    [] k = "stylesFx"    -> {MkPart("word/stylesWithEffects.xml", "stylesWithEffects", "override", "")}
+    [] k = "glossary"    -> {MkPart("word/glossary/document.xml", "glossary", "override", ""),
+                             MkPart("word/glossary/_rels/document.xml.rels", "glossary-rels", "default", ""),
+                             MkPart("word/glossary/styles.xml", "glossary-styles", "override", "")}
+    [] k = "people"      -> {MkPart("word/people.xml", "people", "override", "")}
+    [] k = "commentsExt" -> {MkPart("word/commentsExtended.xml", "commentsExtended", "override", "")}
 
 \* relationships of the main document part contributed by an extra kind (sequence)
 KDocSlots(k) ==
@@ -148,6 +189,10 @@ KDocSlots(k) ==
     [] k = "footer1"     -> <<Slot("footer1", "od/footer", "word/footer1.xml", "footer1.xml", "Internal", "default")>>
     [] k = "unkext"      -> <<ISlot("unknown-ext", "od/oleObject", "word/embeddings/oleObject1.bin", "embeddings/oleObject1.bin")>>
     [] k = "ovronly"     -> <<ISlot("override-only", "http://example.com/relationships/custom", "word/custom/item.data", "custom/item.data")>>
+    [] k = "stylesFx"    -> <<ISlot("stylesWithEffects", "ms07/stylesWithEffects", "word/stylesWithEffects.xml", "stylesWithEffects.xml")>>
+    [] k = "glossary"    -> <<ISlot("glossary", "od/glossaryDocument", "word/glossary/document.xml", "glossary/document.xml")>>
+    [] k = "people"      -> <<ISlot("people", "ms11/people", "word/people.xml", "people.xml")>>
+    [] k = "commentsExt" -> <<ISlot("commentsExtended", "ms11/commentsExtended", "word/commentsExtended.xml", "commentsExtended.xml")>>
     [] OTHER             -> <<>>
 
 \* relationships of the package root contributed by an extra kind
@@ -170,6 +215,8 @@ KOwnRels(k) ==
                              Slot("header-hyperlink", "od/hyperlink", "", "https://example.com/from-header", "External", ""))}
     [] k = "header1"   -> {MkRel("word/_rels/header1.xml.rels", "rId1",
                              ISlot("header1-image", "od/image", "word/media/hdr1logo.png", "media/hdr1logo.png"))}
+    [] k = "glossary"  -> {MkRel("word/glossary/_rels/document.xml.rels", "rId1",
+                             ISlot("glossary-styles", "od/styles", "word/glossary/styles.xml", "styles.xml"))}
     [] OTHER           -> {}
 
 RECURSIVE Flat(_)
@@ -222,34 +269,69 @@ PartsOf(D) ==
 
 \* ---- body ------------------------------------------------------------------
 Tok(b, j, m) == "qT" \o ToString(b) \o "x" \o ToString(j) \o "y" \o ToString(m) \o "q"
-ToksFor(b, j, c) == IF c = "multiT" THEN <<Tok(b, j, 1), Tok(b, j, 2)>> ELSE <<Tok(b, j, 1)>>
 
-BlkKind(x) == IF x = "sdtblk" THEN "sdtblk" ELSE "tbl"
-BlkConts(x) == IF x = "tblhl" THEN <<"plain", "hyperlink">> ELSE <<"plain">>
+\* the inline container(s) a run of container class c is wrapped in, and what the run itself holds
+WrapOf(c) == IF c \in MixConts \cup {"multiT"} THEN "plain" ELSE c
+\* what a run of container class c holds; mixin = the pattern of runs inside inline containers
+MixOf(c, mixin) == IF c \in MixConts \cup {"multiT"} THEN c ELSE IF c = "plain" THEN "t" ELSE mixin
+\* the label of such a run in witnesses
+ContLabel(c, mixin) == IF WrapOf(c) # "plain" /\ mixin # "t" THEN c \o ">" \o mixin ELSE c
+
+\* run content in document order: [k |-> element, v |-> its text / attribute]; pic = relationship id of
+\* the picture a drawing in a mixed run shows ("" = the package holds no picture: a drawing without blip)
+It(k, v) == [k |-> k, v |-> v]
+ItemsFor(b, j, c, mixin, pic) ==
+  LET x == MixOf(c, mixin) t1 == It("t", Tok(b, j, 1)) t2 == It("t", Tok(b, j, 2)) IN
+  CASE x = "t"         -> <<t1>>
+    [] x = "multiT"    -> <<t1, It("tab", ""), t2>>
+    [] x = "t+drawing" -> <<t1, It("drawing", pic)>>
+    [] x = "fld+t"     -> <<It("fldChar", "begin"), It("instrText", " PAGE "), It("fldChar", "separate"), t1, It("fldChar", "end")>>
+    [] x = "t+br+t"    -> <<t1, It("br", ""), t2>>
+    [] x = "tab+t"     -> <<It("tab", ""), t1>>
+    [] x = "t+fnref"   -> <<t1, It("fnref", "1")>>
+    [] x = "t+t"       -> <<t1, t2>>
+ToksOfItems(its) == LET ts == SeqFilter(its, LAMBDA i : i.k = "t") IN [n \in 1..Len(ts) |-> ts[n].v]
+\* a run is mixed iff it holds anything but exactly one w:t
+IsMixedRun(r) == Len(r.its) # 1
+
+BlkKind(x) == IF x \in {"sdtblk", "sdtblkmix"} THEN "sdtblk" ELSE "tbl"
+BlkConts(x) == CASE x = "tblhl"     -> <<"plain", "hyperlink">>
+                 [] x = "tblmix"    -> <<"plain", "t+drawing", "t+br+t", "fld+t">>
+                 [] x = "sdtblkmix" -> <<"plain", "t+t", "t+drawing">>
+                 [] OTHER           -> <<"plain">>
 
 IdOfKind(rels, k) == IF \E r \in rels : r.src = DocRels /\ r.k = k
                      THEN (CHOOSE r \in rels : r.src = DocRels /\ r.k = k).id ELSE ""
 
 BodyOf(D) ==
   LET cs == SeqFilter(ContOrder, LAMBDA c : c \in ContsOf(D))
-      bs == SeqFilter(BlkOrder, LAMBDA b : b \in Vals(D, "blk"))
-      tb == [i \in 1..Len(cs) |-> [blk |-> "p", cs |-> IF cs[i] = "plain" THEN <<"plain">> ELSE <<"plain", cs[i], "plain">>]]
-            \o [i \in 1..Len(bs) |-> [blk |-> BlkKind(bs[i]), cs |-> BlkConts(bs[i])]]
-      text == [b \in 1..Len(tb) |->
-                 [blk |-> tb[b].blk, rel |-> "", link |-> FALSE,
-                  runs |-> [j \in 1..Len(tb[b].cs) |-> [c |-> tb[b].cs[j], ts |-> ToksFor(b, j, tb[b].cs[j])]]]]
+      bs == SeqFilter(BlkOrder, LAMBDA b : b \in BlksOf(D))
+      ss == SeqFilter(SrefOrder, LAMBDA x : x \in SrefsOf(D))
       rels == DocRelSet(D)
       med == MediaSeq(D)
+      pic == IF med = <<>> THEN "" ELSE (CHOOSE r \in rels : r.rt = "word/media/" \o med[1]).id
+      \* the first paragraph has always referred to the style only the foreign part defines
+      tb == [i \in 1..Len(cs) |-> [blk |-> "p", sty |-> IF i = 1 THEN "ForeignStyle" ELSE "",
+                                   cs |-> IF cs[i] = "plain" THEN <<"plain">> ELSE <<"plain", cs[i], "plain">>]]
+            \o [i \in 1..Len(bs) |-> [blk |-> BlkKind(bs[i]), sty |-> "", cs |-> BlkConts(bs[i])]]
+            \o [i \in 1..Len(ss) |-> [blk |-> "p", sty |-> ss[i], cs |-> <<"plain">>]]
+      text == [b \in 1..Len(tb) |->
+                 [blk |-> tb[b].blk, rel |-> "", link |-> FALSE, sty |-> tb[b].sty,
+                  runs |-> [j \in 1..Len(tb[b].cs) |->
+                              LET its == ItemsFor(b, j, tb[b].cs[j], MixinOf(D), pic)
+                              IN [c |-> ContLabel(tb[b].cs[j], MixinOf(D)), w |-> WrapOf(tb[b].cs[j]),
+                                  its |-> its, ts |-> ToksOfItems(its)]]]]
       pics == [i \in 1..Len(med) |->
-                 [blk |-> "pic", link |-> FALSE, runs |-> <<>>,
+                 [blk |-> "pic", link |-> FALSE, runs |-> <<>>, sty |-> "",
                   rel |-> (CHOOSE r \in rels : r.rt = "word/media/" \o med[i]).id]]
       xpic == IF "extimage" \in ExtOf(D)
-              THEN <<[blk |-> "pic", link |-> TRUE, runs |-> <<>>, rel |-> IdOfKind(rels, "extimage")]>> ELSE <<>>
+              THEN <<[blk |-> "pic", link |-> TRUE, runs |-> <<>>, sty |-> "", rel |-> IdOfKind(rels, "extimage")]>> ELSE <<>>
   IN text \o pics \o xpic
 
 PkgOf(D) == [parts |-> PartsOf(D), rels |-> RelsOf(D), body |-> BodyOf(D),
              ns |-> One(D, "ns", "w"), pkgns |-> One(D, "pkgns", "default"),
-             hlink |-> IdOfKind(DocRelSet(D), "hyperlink")]
+             hlink |-> IdOfKind(DocRelSet(D), "hyperlink"),
+             styles |-> [sp |-> One(D, "sty", "w"), defs |-> DefsOf(D)]]
 
 \* ---- reading the model -------------------------------------------------------
 HasPart(ps, n) == \E p \in ps : p.n = n
@@ -277,9 +359,24 @@ IsParaBlk(bl) == bl.blk \in {"p", "pic", "sdtblk"}
 ParasOf(body) == LET ps == SeqFilter(body, IsParaBlk) IN [i \in 1..Len(ps) |-> BlockToks(ps[i])]
 LooseOf(body) == UNION {BlockToks(body[b]) : b \in {x \in 1..Len(body) : ~IsParaBlk(body[x])}}
 
+\* ---- the styles part ------------------------------------------------------------
+\* The library keeps word/styles.xml of an opened package verbatim (document.go serializeStyles) and
+\* only EXTENDS it on save (appendMissingStyles): a style the saved body refers to that the part does not
+\* define is appended if the library has a definition of its own (after Open its style manager holds
+\* exactly its predefined styles - the foreign definitions are never loaded, style.ParseStylesFromXML
+\* rejects the namespaced root element). C04 therefore claims the part byte-for-byte exactly when every
+\* style the body uses is already defined in it, however the part spells its XML; otherwise the part
+\* counts as regenerated (the library may legitimately append the missing definition, or leave the part
+\* alone when it has none - C04 demands neither).
+StyleRefs(body) == {body[b].sty : b \in 1..Len(body)} \ {""}
+StylesClaimed(m) == StyleRefs(m.body) \subseteq m.styles.defs
+StylesRegen(m) == IF StylesClaimed(m) THEN {} ELSE {StylesPart}
+
 \* ---- the machine --------------------------------------------------------------
-InitOf(m) == [m |-> m, o |-> m, paras |-> ParasOf(m.body), loose |-> LooseOf(m.body), regen |-> AlwaysRegen, xrels |-> {}]
-NoPkg == [parts |-> {}, rels |-> {}, body |-> <<>>, ns |-> "w", pkgns |-> "default", hlink |-> ""]
+InitOf(m) == [m |-> m, o |-> m, paras |-> ParasOf(m.body), loose |-> LooseOf(m.body),
+              regen |-> AlwaysRegen \cup StylesRegen(m), xrels |-> {}]
+NoPkg == [parts |-> {}, rels |-> {}, body |-> <<>>, ns |-> "w", pkgns |-> "default", hlink |-> "",
+          styles |-> [sp |-> "w", defs |-> {}]]
 Closed == [m |-> NoPkg, o |-> NoPkg, paras |-> <<>>, loose |-> {}, regen |-> AlwaysRegen, xrels |-> {}]
 
 ParaAppenders == {"AddParagraph", "AddHeading", "AddFormattedParagraph", "AddImage", "AddListItem",
@@ -315,7 +412,8 @@ Touches(o, e) ==
     [] e.op = "AddEndnote"        -> {"word/endnotes.xml"}
     [] e.op = "SetFootnoteConfig" -> {"word/settings.xml"}
     [] e.op = "SetTitle"          -> {"docProps/core.xml", "docProps/app.xml"}
-    [] e.op = "AddHeading"        -> {StylesPart}
+    \* the new paragraph refers to Heading1: the part is extended unless it defines that id already
+    [] e.op = "AddHeading"        -> IF "Heading1" \in o.styles.defs THEN {} ELSE {StylesPart}
     [] OTHER                      -> {}
 
 \* relationships an edit replaces by design: AddHeader/AddFooter of kind t replaces the section's
@@ -376,11 +474,12 @@ NoChoice == [id |-> "", name |-> "", rm |-> 0]
 ExpToks(s) == s.loose \cup UNION {s.paras[i] : i \in 1..Len(s.paras)}
 
 \* ---- observed package (what the independent reader projects) ------------------
-\*   [parts : set of [n, h, ct], rels : set of [src, id, ty, tg, rt, mode, ix], toks : set of token, zip, body]
+\*   [parts : set of [n, h, ct], rels : set of [src, id, ty, tg, rt, mode, ix], toks : set of token, zip, body,
+\*    mem : tokens carried by the runs of the document in memory (paragraphs and table cells at any depth)]
 ObsOfModel(m, toks) ==
   [parts |-> {[n |-> p.n, h |-> p.h, ct |-> p.ct] : p \in m.parts},
    rels  |-> {[src |-> r.src, id |-> r.id, ty |-> r.ty, tg |-> r.tg, rt |-> r.rt, mode |-> r.mode, ix |-> 0] : r \in m.rels},
-   toks  |-> toks, zip |-> "ok", body |-> "ok"]
+   toks  |-> toks, mem |-> toks, zip |-> "ok", body |-> "ok"]
 
 \* ---- the property as witness sets (empty = holds) -------------------------------
 \* b = observed foreign package, m = its model (labels only), regen = names outside the
@@ -418,9 +517,12 @@ Viol_Rels(b, m, regen, xrels, a) ==
   UNION {Viol_Rel(r, KindOfRel(m, r.src, r.id), a) :
            r \in {x \in b.rels : x.src \notin (regen \ AlwaysRegen) /\ <<x.src, x.id>> \notin xrels}}
 
+\* text-unread: a w:t of the foreign body is not carried by any run of the opened document in memory;
+\* text-lost: it is not carried by any run of the saved main part
 Viol_Text(m, exp, a) ==
-  IF a.body # "ok" THEN {<<"text-lost", "body-" \o a.body>>}
-  ELSE {<<"text-lost", LabelOfTok(m.body, t)>> : t \in exp \ a.toks}
+  {<<"text-unread", LabelOfTok(m.body, t)>> : t \in exp \ a.mem}
+  \cup (IF a.body # "ok" THEN {<<"text-lost", "body-" \o a.body>>}
+        ELSE {<<"text-lost", LabelOfTok(m.body, t)>> : t \in exp \ a.toks})
 
 \* raw witnesses <<tag, label>>; the judge prefixes the property id and the operation
 Viol_C04(b, s, a) ==
@@ -431,6 +533,20 @@ Viol_C04(b, s, a) ==
 \*      used by Foreign_MC to show each detector fires exactly when it should -------
 Lossy_DropModes(a) == [a EXCEPT !.rels = {[r EXCEPT !.mode = "Internal", !.rt = "?"] : r \in a.rels}]
 Lossy_PlainOnly(m, a) == [a EXCEPT !.toks = {t \in a.toks : LabelOfTok(m.body, t) = "plain"}]
+\* a reader that keeps one w:t per run and no text of a run that holds other content
+MixedToks(body) == UNION {UNION {SetOf(body[b].runs[j].ts) : j \in {x \in 1..Len(body[b].runs) : IsMixedRun(body[b].runs[x])}} : b \in 1..Len(body)}
+Lossy_PureRunsOnly(m, a) == [a EXCEPT !.toks = a.toks \ MixedToks(m.body), !.mem = a.mem \ MixedToks(m.body)]
+\* a writer that drops the text of mixed runs although the reader kept it
+Lossy_WriterPureOnly(m, a) == [a EXCEPT !.toks = a.toks \ MixedToks(m.body)]
+\* a reader that takes every relationship whose type contains "styles" for the styles relationship:
+\* the look-alike is filtered out; without a genuine styles relationship its id is reused for styles.xml
+Lossy_StylesLookalike(a) ==
+  LET fx == {r \in a.rels : r.src = DocRels /\ r.ty = "ms07/stylesWithEffects"}
+      hasSty == \E r \in a.rels : r.src = DocRels /\ r.ty = "od/styles" /\ r.rt = StylesPart
+  IN [a EXCEPT !.rels = (a.rels \ fx) \cup (IF hasSty THEN {} ELSE
+                           {[r EXCEPT !.ty = "od/styles", !.tg = "styles.xml", !.rt = StylesPart] : r \in fx})]
+\* a writer that regenerates or extends the styles part although nothing is missing from it
+Lossy_StylesRewritten(a) == [a EXCEPT !.parts = {IF p.n = StylesPart THEN [p EXCEPT !.h = "rewritten"] ELSE p : p \in a.parts}]
 Lossy_StylesRId1(a) == [a EXCEPT !.rels = {IF r.src = DocRels /\ r.ty = "od/styles" THEN [r EXCEPT !.id = "rId1"] ELSE r : r \in a.rels}]
 Lossy_DefaultPkgRels(a) ==
   [a EXCEPT !.rels = {r \in a.rels : r.src # PkgRels}
